@@ -5,6 +5,8 @@ pub enum Engine {
     EModel,
     /// E-MODEL history x configuration matrix
     EModelMatrix,
+    /// pure proof monitors (no database)
+    EProof,
 }
 
 pub struct Check {
@@ -137,8 +139,47 @@ pub fn checks() -> Vec<Check> {
                    every run is compared with the same model, so results are identical across configurations; non-trivial when commit_concurrency >= 2 or a cache is at its minimum",
             assumptions: A_MODEL,
         },
+        Check {
+            id: "C07",
+            engine: Engine::EProof,
+            level: "exploration",
+            quick_cases: 480,
+            thorough_cases: 24000,
+            quick_budget_s: 50,
+            thorough_budget_s: 900,
+            rule: "case = one (trie T, subset S of its terminals, in-scope sorted write set W): honest path proofs from the reference prover are aggregated, the multi-proof must verify, every confirm_*/find_index query must answer like the path proof, and verify_multi_proof_update(W) == verify_update(W) == reference root of T+W; plus one evaluation per query;                    non-trivial when >=3 paths are aggregated and W is non-empty; distinct = distinct (case seed, round, ordinal)",
+            assumptions: A_PROOF,
+        },
+        Check {
+            id: "C08",
+            engine: Engine::EProof,
+            level: "exploration",
+            quick_cases: 4000,
+            thorough_cases: 160000,
+            quick_budget_s: 50,
+            thorough_budget_s: 900,
+            rule: "case = one adversarial object (single- or double-field mutant of an honest path proof or multi-proof: sibling flip/replace/swap/drop/duplicate/extend/splice, terminal key/value/kind/depth changes, internal-node-as-leaf splice, depth +-1, path reorder/drop/duplicate, deeper relabelling, terminator over an existing key) verified against the true root; if it verifies, every confirm_value/confirm_nonexistence answer on the queried key, all set keys in scope and random keys, and every update root, is compared with the truth table of the key set;                    non-trivial when the object differs from the honest proof it was derived from; distinct by a hash of the object's canonical debug form",
+            assumptions: A_PROOF,
+        },
+        Check {
+            id: "C18",
+            engine: Engine::EProof,
+            level: "exploration",
+            quick_cases: 4000,
+            thorough_cases: 160000,
+            quick_budget_s: 50,
+            thorough_budget_s: 900,
+            rule: "case = one object (random or mutated PathProof / MultiProof with depths and sibling counts 0..300, unsorted/duplicate/prefix-related paths, key slices of odd length) fed to PathProof::verify, verify_multi_proof, and - when it verifies against the root it folds to - to confirm_*, confirm_*_with_index (in-range indices), find_index_for, verify_update and verify_multi_proof_update with hostile op lists; any panic is a violation;                    non-trivial when the object passes the verifier's first length/ordering check (so deeper code necessarily ran); distinct by a hash of the object; thorough additionally runs the same generator under Miri (UB = violation)",
+            assumptions: A_PROOF,
+        },
     ]
 }
+
+const A_PROOF: &[&str] = &[
+    "truth = the key/value-hash set itself; honest proofs come from the harness's reference trie (raw blake3/sha2)",
+    "collision resistance of blake3/sha2 (a toy hasher is used only for totality under Miri)",
+    "adversarial objects are sampled from the listed mutation operators, not enumerated",
+];
 
 pub fn find(id: &str) -> Option<Check> {
     checks().into_iter().find(|c| c.id == id)
